@@ -78,6 +78,10 @@ func run(c *xs.Ctx, r *xs.Result) {
 		return mine
 	}
 
+	if next() {
+		originPart(c, r, nil)
+	}
+
 	// ---- part (a)
 	t0 := time.Now()
 	ds := powDifficulties()
@@ -257,6 +261,12 @@ func replay(c *xs.Ctx, r *xs.Result, b bounds) {
 			x.evalOne(e, st, rep.Path, *rep.Cand, nn, rep.Heavy)
 		}
 		e.n.Destroy()
+	case "origin":
+		var rep originReplay
+		if err := json.Unmarshal(c.Replay, &rep); err != nil {
+			panic(err)
+		}
+		originPart(c, r, &rep)
 	case "price":
 		var rep priceReplay
 		if err := json.Unmarshal(c.Replay, &rep); err != nil {
